@@ -5,6 +5,8 @@ instruction and for the depth analysis of the generator's templates (C15.R4)."""
 from . import mir
 
 CAP = 6
+_TAGGED_ADTS = ("core::option::Option", "core::result::Result")
+_TAG_DISCR = {"None": 0, "Some": 1, "Ok": 0, "Err": 1}
 
 
 def vadd(a, b):
@@ -17,6 +19,7 @@ class Result:
         self.exits = set()     # (vec, err) at return
         self.unbounded = False
         self.sites = []        # (bb, event, set of vec at the site) recorded by the client
+        self.tagged_exits = set()   # (vec, tag of the returned Option / Result or None), success paths
 
 
 class CounterFlow:
@@ -33,6 +36,8 @@ class CounterFlow:
         self.stack = []
         self.lowlink = []
         self.unbounded_fns = set()
+        self.tagged = {}
+        self.tagged_tmp = {}
 
     # ------------------------------------------------------------------
     def summary(self, fn, const_args=()):
@@ -57,6 +62,7 @@ class CounterFlow:
             ok = frozenset(v for v, err in res.exits if not err)
             if res.unbounded:
                 self.unbounded_fns.add(key)
+            self.tagged_tmp[key] = frozenset(res.tagged_exits)
             if ok == self.in_progress[key]:
                 break
             self.in_progress[key] = ok
@@ -64,20 +70,34 @@ class CounterFlow:
         self.stack.pop()
         if low >= my_idx:
             self.memo[key] = ok
+            self.tagged[key] = self.tagged_tmp[key]
         elif self.lowlink:
             self.lowlink[-1] = min(self.lowlink[-1], low)
         return ok
+
+    def summary_tagged(self, fn, const_args=()):
+        """frozenset of (net vector, tag) over success paths; tag is the Option / Result variant the
+        path returns ('Some' / 'None' / 'Ok' / 'Err') when that is visible, else None.  Lets a caller that
+        switches on the result follow, on each edge, only the callee paths that produce that variant
+        (`match self.take() { Some(x) => .., None => return Err(..) }`)."""
+        key = (fn.id, tuple(const_args))
+        ok = self.summary(fn, const_args)
+        t = self.tagged.get(key)
+        if t is None:
+            return frozenset((v, None) for v in ok)
+        return t
 
     # ------------------------------------------------------------------
     def analyze(self, fn, const_args=(), start=0, region=None, body=None, on_event=None):
         body = body or fn.body
         pv = mir.Prov(body)
         res = Result()
-        state = {start: {(self.zero, False)}}
+        state = {start: {(self.zero, False, frozenset(), None)}}
         work = [start]
         effects_cache = {}
 
         def block_effect(b):
+            """list of (vec, tag) or None"""
             if b in effects_cache:
                 return effects_cache[b]
             t = body.term(b)
@@ -86,9 +106,16 @@ class CounterFlow:
                 ce = self.call_effect(fn, body, b, t, pv)
                 if ce is not None:
                     if ce[0] == "delta":
-                        eff = list(ce[1])
+                        eff = [(d, None) for d in ce[1]]
+                    elif ce[0] == "delta_tagged":
+                        if b in relevant:
+                            eff = list(ce[1])
+                        else:
+                            # the result is unwrapped or dropped, not looked at: the succeeding variant
+                            eff = [(d, None) for d, tag in ce[1] if tag in ("Some", "Ok")]
                     elif ce[0] == "callee":
-                        eff = sorted(self.summary(ce[1], ce[2]))
+                        self.summary(ce[1], ce[2])
+                        eff = sorted(self.summary_tagged(ce[1], ce[2]), key=lambda x: (x[0], str(x[1])))
                         # a callee without any success path (always panics / unresolved recursion)
                         # contributes nothing on this path
             effects_cache[b] = eff
@@ -105,6 +132,56 @@ class CounterFlow:
                 return True
             return False
 
+        def ret_update(b, ret, tags, call_tag):
+            """tag of the return place after block b"""
+            blk = body.blocks[b]
+            for s in blk["s"]:
+                if s["k"] != "assign" or s["p"][0] != 0 or s["p"][1]:
+                    continue
+                r = s["r"]
+                ret = None
+                if r["k"] == "agg" and r.get("a") == "adt" and r.get("adt") in _TAGGED_ADTS:
+                    ret = r.get("variant")
+                elif r["k"] == "use":
+                    o = mir.strip_refs(pv.of_operand(r["o"]))
+                    if o[0] == "call":
+                        ret = dict(tags).get(o[3])
+            t = blk["t"]
+            if t["k"] == "call" and t.get("d") and t["d"][0] == 0 and not t["d"][1]:
+                ret = call_tag
+            return ret
+
+        def switch_tag_block(t):
+            """call block whose tagged result the switch discriminates, or None"""
+            p = mir.op_place(t["o"])
+            if p is None:
+                return None
+            o = pv.of_place(p)
+            if o[0] != "discr":
+                return None
+            o = mir.strip_refs(o[1])
+            if o[0] == "call":
+                return o[3]
+            return None
+
+        relevant = set()
+        for bb in range(body.nblocks):
+            tt = body.term(bb)
+            if tt["k"] == "switch":
+                cb0 = switch_tag_block(tt)
+                if cb0 is not None:
+                    relevant.add(cb0)
+        ret_is_call = set()
+        for bb in range(body.nblocks):
+            for st in body.blocks[bb]["s"]:
+                if st["k"] == "assign" and st["p"][0] == 0 and not st["p"][1] and st["r"]["k"] == "use":
+                    o0 = mir.strip_refs(pv.of_operand(st["r"]["o"]))
+                    if o0[0] == "call":
+                        relevant.add(o0[3])
+            tt = body.term(bb)
+            if tt["k"] == "call" and tt.get("d") and tt["d"][0] == 0 and not tt["d"][1]:
+                relevant.add(bb)
+
         steps = 0
         while work:
             b = work.pop()
@@ -113,34 +190,58 @@ class CounterFlow:
                 res.unbounded = True
                 break
             cur = state.get(b, set())
-            res.at[b] = set(cur)
+            res.at[b] = {(v, e) for v, e, _tg, _rt in cur}
             eff = block_effect(b)
             err_here = marks_error(b)
             out = set()
-            if eff is None:
-                out = set(cur)
-            else:
-                for v, e in cur:
-                    for d in eff:
-                        out.add((vadd(v, d), e))
+            for v, e, tags, ret in cur:
+                if eff is None:
+                    items = [(v, tags, None)]
+                else:
+                    items = []
+                    for d, tag in eff:
+                        tg = tags
+                        if tag is not None and b in relevant:
+                            tg = frozenset(x for x in tags if x[0] != b) | {(b, tag)}
+                        items.append((vadd(v, d), tg, tag))
+                for v2, tg, call_tag in items:
+                    out.add((v2, e or err_here, tg, ret_update(b, ret, tg, call_tag)))
             if on_event is not None:
-                on_event(b, cur, out)
-            if err_here:
-                out = {(v, True) for v, _ in out}
+                on_event(b, {(v, e) for v, e, _tg, _rt in cur}, {(v, e) for v, e, _tg, _rt in out})
             t = body.term(b)
             if t["k"] == "return":
-                res.exits |= out
+                res.exits |= {(v, e) for v, e, _tg, _rt in out}
+                res.tagged_exits |= {(v, rt) for v, e, _tg, rt in out if not e}
                 continue
             succ = body.succ(b)
+            per_succ = {x: out for x in succ}
             if t["k"] == "switch":
                 succ = self._feasible(body, pv, t, const_args, succ)
+                per_succ = {x: out for x in succ}
+                cb = switch_tag_block(t)
+                if cb is not None:
+                    per_succ = {x: set() for x in succ}
+                    for el in out:
+                        tag = dict(el[2]).get(cb)
+                        dv = _TAG_DISCR.get(tag)
+                        if dv is None:
+                            tgts = succ
+                        else:
+                            hit = [tgt for val, tgt in t["ts"] if val == dv]
+                            tgts = hit[:1] if hit else [t["else"]]
+                        for x in tgts:
+                            if x in per_succ:
+                                per_succ[x].add(el)
             for s in succ:
+                o_s = per_succ.get(s, out)
+                if not o_s:
+                    continue
                 if region is not None and s not in region:
-                    res.exits |= out
+                    res.exits |= {(v, e) for v, e, _tg, _rt in o_s}
                     continue
                 old = state.get(s, set())
-                new = old | out
-                if len(new) > CAP * 2:
+                new = old | o_s
+                if len(new) > CAP * 4:
                     res.unbounded = True
                     new = old
                 if new != old:
